@@ -10,6 +10,7 @@ import VK.Model.Replay
 import VK.Model.Metric
 import VK.Model.BallotGraph
 import VK.Model.Loaders
+import VK.Model.Interval
 open Lean VK VK.Codec
 
 def getSTVCfg (j : Json) : D STVCfg := do
@@ -306,6 +307,25 @@ def handle (j : Json) : D Json := do
         ("cands", .arr (r.cands.map Json.str).toArray), ("parties", .arr (r.parties.map Json.str).toArray),
         ("ballots", .arr (r.ballots.map (fun b => Json.arr #[jCands b.1, jNat b.2])).toArray)])
       (parseScottish rows))
+  | "mk_interval" => do
+    let sup ← getScores (← field j "supports")
+    pure (jOutcome (fun (iv : Interval) => Json.mkObj [("interval", jScores iv.interval), ("zeros", jCands (sortCands iv.zeros))])
+      (mkInterval sup))
+  | "combine_intervals" => do
+    let sups ← getList getScores (← field j "supports")
+    let props ← getList getRat (← field j "props")
+    let r : Outcome Interval := do
+      let ivs ← sups.foldr (fun s acc => do let iv ← mkInterval s; let rest ← acc; pure (iv :: rest)) (.ok [])
+      combineIntervals ivs props
+    pure (jOutcome (fun (iv : Interval) => Json.mkObj [("interval", jScores iv.interval), ("zeros", jCands (sortCands iv.zeros))]) r)
+  | "bt_pdf" => do
+    let x ← getScores (← field j "interval")
+    pure (Json.mkObj [("ok", .arr ((btPdf x).map (fun rp => Json.arr #[jCands rp.1, jRat rp.2])).toArray)])
+  | "slate_bt_pdf" => do
+    let a ← getNat (← field j "a"); let b ← getNat (← field j "b")
+    let c ← getRat (← field j "cohesion")
+    pure (Json.mkObj [("ok", .arr ((slateBtPdf a b c).map (fun tp =>
+      Json.arr #[.arr (tp.1.map Json.bool).toArray, jRat tp.2])).toArray)])
   | "pairwise" => do
     let p ← getProfile (← field j "profile")
     let d := pairwiseDict p
